@@ -360,15 +360,28 @@ package table
 //@   loop 0 invariant[inner-keys] forall b string, o string :: {has(resMap[b], o)} has(resMap, b) && has(resMap[b], o) <==> (exists j int :: {aaps[j]} 0 <= j && j < $i && aaps[j].InAlias == b && aaps[j].OutAlias == o)
 //@   loop 0 invariant[inner-values] forall b string, o string :: {has(resMap[b], o)} has(resMap, b) && has(resMap[b], o) ==> resMap[b][o].InAlias == b && resMap[b][o].OutAlias == o && (exists j int :: {aaps[j]} 0 <= j && j < $i && aaps[j] == resMap[b][o])
 
+// accOK(a): a is nil or one of the four accumulators, non-nil, a distinct counter with its map.
+//@ spec macro accOK(a Accumulator) Bool = a == nil || (typeis(a, "*countAcc") && unbox(a, "*countAcc") != nil) || (typeis(a, "*countDistinctAcc") && unbox(a, "*countDistinctAcc") != nil && unbox(a, "*countDistinctAcc").state != nil) || (typeis(a, "*sumInt64") && unbox(a, "*sumInt64") != nil) || (typeis(a, "*sumFloat64") && unbox(a, "*sumFloat64") != nil)
 // unsafeFullGroupRangeReduce folds the rows [i, j) into one row through the accumulators. Its body
 // (seven nested loops over maps of accumulators behind an interface) is not verified: the contract
 // is ASSUMED. It writes accumulator state only and needs a non-empty range (it reads rng[0]).
 //@ func (t *Table) unsafeFullGroupRangeReduce
-//@   nobody
 //@   requires[non-empty-range] t != nil && 0 <= i && i < j && j <= len(t.Data)
+//@   requires[rows-present] forall k int :: {t.Data[k]} i <= k && k < j ==> t.Data[k] != nil
+//@   requires[rows-carry-the-bindings] forall k int, b string :: {t.Data[k], has(acc, b)} i <= k && k < j && has(acc, b) ==> t.Data[k] != nil && has(t.Data[k], b) && t.Data[k][b] != nil && (t.Data[k][b].L != nil ==> wfLit(t.Data[k][b].L))
+//@   requires[pairs-are-indexed-by-their-names] forall b string, o string :: {has(acc[b], o)} has(acc, b) && has(acc[b], o) ==> acc[b][o].InAlias == b && acc[b][o].OutAlias == o && accOK(acc[b][o].Acc)
 //@   modifies heap(countAcc.state), heap(sumInt64.state), heap(sumFloat64.state), heap(countDistinctAcc.state), heap(contents:countDistinctAcc.state)
 //@   ensures[row-or-error] (result0 != nil && result1 == nil) || (result0 == nil && result1 != nil)
 //@   ensures[fresh-row] result0 != nil ==> fresh(result0)
+//@   ensures[accumulators-stay-usable] (forall b string, o string :: {has(acc[b], o)} has(acc, b) && has(acc[b], o) ==> acc[b][o].InAlias == b && acc[b][o].OutAlias == o && accOK(acc[b][o].Acc))
+//@   loop 0 invariant (forall b string, o string :: {has(acc[b], o)} has(acc, b) && has(acc[b], o) ==> acc[b][o].InAlias == b && acc[b][o].OutAlias == o && accOK(acc[b][o].Acc))
+//@   loop 1 invariant (forall b string, o string :: {has(acc[b], o)} has(acc, b) && has(acc[b], o) ==> acc[b][o].InAlias == b && acc[b][o].OutAlias == o && accOK(acc[b][o].Acc))
+//@   loop 2 invariant (forall b string, o string :: {has(acc[b], o)} has(acc, b) && has(acc[b], o) ==> acc[b][o].InAlias == b && acc[b][o].OutAlias == o && accOK(acc[b][o].Acc)) && vaccs != nil && fresh(vaccs) && (forall x string :: {has(vaccs, x)} has(vaccs, x) ==> vaccs[x] != nil && fresh(vaccs[x])) && 0 <= $i && $i <= len(rng)
+//@   loop 3 invariant (forall b string, o string :: {has(acc[b], o)} has(acc, b) && has(acc[b], o) ==> acc[b][o].InAlias == b && acc[b][o].OutAlias == o && accOK(acc[b][o].Acc)) && vaccs != nil && fresh(vaccs) && (forall x string :: {has(vaccs, x)} has(vaccs, x) ==> vaccs[x] != nil && fresh(vaccs[x])) && r != nil
+//@   loop 4 invariant (forall b string, o string :: {has(acc[b], o)} has(acc, b) && has(acc[b], o) ==> acc[b][o].InAlias == b && acc[b][o].OutAlias == o && accOK(acc[b][o].Acc)) && vaccs != nil && fresh(vaccs) && (forall x string :: {has(vaccs, x)} has(vaccs, x) ==> vaccs[x] != nil && fresh(vaccs[x])) && r != nil
+//@   loop 5 invariant[v1] vaccs != nil && fresh(vaccs)
+//@   loop 5 invariant[v2] forall x string :: {has(vaccs, x)} has(vaccs, x) ==> vaccs[x] != nil && fresh(vaccs[x])
+//@   loop 6 invariant vaccs != nil && fresh(vaccs) && (forall x string :: {has(vaccs, x)} has(vaccs, x) ==> vaccs[x] != nil && fresh(vaccs[x]))
 
 // Reduce: after sorting by the group-by bindings every call of the range reducer covers exactly one
 // maximal run of consecutive rows with the same group id (the printed group-by cells): it starts
@@ -391,6 +404,9 @@ package table
 
 //@ func (t *Table) Reduce
 //@   requires t != nil && t.#lock_mu == 0 && len(cfg) >= 1 && sortableRows(t.Data, cfg)
+//@   requires[rows-carry-the-input-bindings] forall k int, q int :: {t.Data[k], aaps[q]} 0 <= k && k < len(t.Data) && 0 <= q && q < len(aaps) ==> t.Data[k] != nil && has(t.Data[k], aaps[q].InAlias) && t.Data[k][aaps[q].InAlias] != nil && (t.Data[k][aaps[q].InAlias].L != nil ==> wfLit(t.Data[k][aaps[q].InAlias].L))
+//@   requires[rows-present] forall k int :: {t.Data[k]} 0 <= k && k < len(t.Data) ==> t.Data[k] != nil
+//@   requires[accumulators-usable] forall q int :: {aaps[q]} 0 <= q && q < len(aaps) ==> accOK(aaps[q].Acc)
 //@   modifies t.#failed
 //@   ghostdef result != nil ==> t.#failed
 //@   ghostdef result == nil ==> t.#failed == old(t.#failed)
@@ -403,5 +419,7 @@ package table
 //@   loop 1 invariant t.#lock_mu == 2 && t.Data == old(t.Data) && maaps != nil
 //@   loop 2 invariant[frame] t.#lock_mu == 2 && 0 <= $i && $i <= len(t.Data) && t.Data == atentry(t.Data) && len(deref(addr(cfg))) >= 1 && sortableRows(t.Data, deref(addr(cfg))) && maaps != nil
 //@   loop 2 invariant[run] 0 <= lastIdx && lastIdx <= $i && ((last == "") <==> ($i == 0)) && ($i > 0 ==> lastIdx < $i && last == gid(t.Data[lastIdx], addr(cfg)) && (forall k int :: {t.Data[k]} lastIdx <= k && k < $i ==> gid(t.Data[k], addr(cfg)) == last) && (lastIdx == 0 || gid(t.Data[lastIdx - 1], addr(cfg)) != last))
+//@   loop 2 invariant[accumulators] (forall b string, o string :: {has(maaps[b], o)} has(maaps, b) && has(maaps[b], o) ==> maaps[b][o].InAlias == b && maaps[b][o].OutAlias == o && accOK(maaps[b][o].Acc)) && (forall b string :: {has(maaps, b)} has(maaps, b) ==> (exists q int :: {aaps[q]} 0 <= q && q < len(aaps) && aaps[q].InAlias == b))
+//@   loop 2 invariant[rows] (forall k int, q int :: {t.Data[k], aaps[q]} 0 <= k && k < len(t.Data) && 0 <= q && q < len(aaps) ==> t.Data[k] != nil && has(t.Data[k], aaps[q].InAlias) && t.Data[k][aaps[q].InAlias] != nil && (t.Data[k][aaps[q].InAlias].L != nil ==> wfLit(t.Data[k][aaps[q].InAlias].L))) && (forall k int :: {t.Data[k]} 0 <= k && k < len(t.Data) ==> t.Data[k] != nil)
 //@   loop 2 invariant[count] len(newData) <= lastIdx && (lastIdx > 0 ==> len(newData) >= 1)
 //@   loop 3 invariant t.#lock_mu == 2 && t.mbs != nil && fresh(t.mbs) && len(newData) == atentry(len(newData))
